@@ -222,7 +222,7 @@ def check_job_loop(ctx, f, s_p, ql):
                detail=f"pool_id={norm.U(pid) if pid is not None else None}; priority={norm.U(pr) if pr is not None else None}; ops={norm.U(norm.subst(ops, le)) if ops is not None else None}")
 
 
-def check_suspension(ctx, f, s_p, qmap):
+def check_suspension(ctx, f, s_p, qmap, admissibility_only=False):
     P = ctx.P
     g = cfg_of(f, subst_env=False)
     # (5) who may construct Suspend
@@ -237,8 +237,9 @@ def check_suspension(ctx, f, s_p, qmap):
     mine = [c for fn_, c in sites if fn_.node is f.node]
     for c in mine:
         fs = g.facts_at(c)
-        ctx.ob(6, "K2", "a Suspend is issued only while a query job is waiting", norm.entails(fs, ("truth", qry, True)), f, c, construct="guard: len(s.qry_jobs) > 0",
-               detail=f"facts: {sorted(norm.show(x) for x in fs)}")
+        if not admissibility_only:
+            ctx.ob(6, "K2", "a Suspend is issued only while a query job is waiting", norm.entails(fs, ("truth", qry, True)), f, c, construct="guard: len(s.qry_jobs) > 0",
+                   detail=f"facts: {sorted(norm.show(x) for x in fs)}")
         lp = enclosing_for(c, f.node)
         ok = lp is not None and isinstance(lp.iter, ast.Name) and isinstance(lp.target, ast.Name)
         if not ok:
@@ -273,9 +274,10 @@ def check_suspension(ctx, f, s_p, qmap):
             src = _container_source(f, g, a, cv, s_p)
             ctx.ob(6, "K2", "a container is selected only if it reports can_suspend_container() (operator boundary)", can, f, a, construct="guard: can_suspend_container()",
                    detail=f"facts: {sorted(norm.show(x) for x in fa)}")
-            ctx.ob(6, "K2", "a query container is never selected", notq, f, a, construct="guard: priority != QUERY", detail=f"facts: {sorted(norm.show(x) for x in fa)}")
-            ctx.ob(6, "K2", "at most one container is selected per waiting query job (a counter starting at 0, incremented with each selection, stays below len(qry_jobs))", bound, f, a,
-                   construct="guard: cnt < len(s.qry_jobs)", detail=f"facts: {sorted(norm.show(x) for x in fa)}")
+            if not admissibility_only:
+                ctx.ob(6, "K2", "a query container is never selected", notq, f, a, construct="guard: priority != QUERY", detail=f"facts: {sorted(norm.show(x) for x in fa)}")
+                ctx.ob(6, "K2", "at most one container is selected per waiting query job (a counter starting at 0, incremented with each selection, stays below len(qry_jobs))", bound, f, a,
+                       construct="guard: cnt < len(s.qry_jobs)", detail=f"facts: {sorted(norm.show(x) for x in fa)}")
             ctx.ob(6, "K6", "candidates are taken from the pools' active containers", src, f, a, construct="source: pools[i].active_containers", detail=f"container variable {cv}")
         # (7) re-offer registration in the same block as the Suspend
         blk = poolmod.block_of(poolmod.stmt_of(c))
@@ -304,6 +306,8 @@ def check_suspension(ctx, f, s_p, qmap):
                 d += f"; unfinished operators of the container: {okops}; its priority: {okpr}; its allocation, no error: {okrs}"
         ctx.ob(7, "K18", "re-offer does not depend on observing the transient `suspending` state: the displaced work is registered under the container's id when the "
                "Suspend is issued (same block)", okreg, f, c, construct="s.suspending[container_id] = job at Suspend", detail=d)
+    if admissibility_only:
+        return
     # the re-queue of suspended work
     pops = [n for n in own_nodes(f.node) if isinstance(n, ast.Call) and isinstance(n.func, ast.Attribute) and n.func.attr == "pop" and norm.U(n.func.value) == f"{s_p}.suspending"]
     okq = False
